@@ -273,10 +273,14 @@ class Sched:
         parent = self.me() or self.main
         vt = VT(name, parent.domain if domain is None else domain, is_proc)
         vt.gen = getattr(parent, "gen", 0)
+        vt.state = "new"  # not schedulable until its real thread is parked on `go` (a __del__ run by the
+        # garbage collector inside Thread.start() may reach a switch point in the meantime)
         self.vts.append(vt)
+        started = _rt.Event()
 
         def body():
             self.by_ident[_rt.get_ident()] = vt
+            started.set()
             vt.go.acquire()
             try:
                 if vt.killed:
@@ -298,6 +302,9 @@ class Sched:
         t = _rt.Thread(target=body, name="vt-" + name, daemon=True)
         vt.real = t
         t.start()
+        started.wait()
+        if vt.state == "new":
+            vt.state = "ready"
         return vt
 
     def kill(self, vt: VT):
